@@ -13,7 +13,7 @@
 From Coq Require Import String List ZArith Bool.
 From Shoot Require Import Base.Str Model.Transfer Model.MapVal Model.Mapper Model.MapperEval Model.MapperSpec
      Proofs.MapperProofs Proofs.MapperPlanProofs Proofs.MapperFlattenProofs Proofs.MapperAnalyseProofs
-     Proofs.MapperCompleteProofs Proofs.MapperAttribProofs
+     Proofs.MapperCompleteProofs Proofs.MapperAttribProofs Proofs.MapperFlattenRel
      Corr.MapperCorr Proofs.MapperExamples Proofs.MapperExampleProofs.
 Import ListNotations.
 Local Open Scope string_scope.
@@ -24,8 +24,8 @@ Local Open Scope string_scope.
    vacuous for plain struct types, see C05_plain_guard.  The statement is on
    NAMES: for plain structs names are distinct per side (C05_pass_invariant), so
    distinct names are distinct storage; with accessor pseudo-fields two names can
-   denote one backing field -- that is the subject of C15 (setcalls_ok), not of
-   this theorem. *)
+   denote one backing field: C15_set_at_most_once_paths states write-once on the
+   STORAGE under the table condition tables_wf. *)
 Theorem C05_write_once : forall sigma jb a,
   analyse sigma jb = Some a -> acc_guard jb ->
   NoDup (map (fun st => r_name (st_dst st)) (pl_stmts (a_to a)))
@@ -208,6 +208,26 @@ Theorem C05_tagged_name_matches : forall f1 f2 tm t,
   can_name_match f1 f2 tm false = true.
 Proof. exact can_name_match_tag. Qed.
 Print Assumptions C05_tagged_name_matches.
+
+(* ... from the struct DECLARATION: a top-level source field f with `map:"t"`, whose
+   name is its own Pascal form (no `_`: exactly what fails in K_map_tag_underscore) and
+   shares it with no other tagged field, name-matches every plain field whose name the
+   Pascal form of t smart-matches -- in particular the field named t when t is
+   `_`-free.  The tag-map entry is DERIVED from extractTopFiels here, not assumed. *)
+Theorem C05_tagged_field_matches : forall e fuel n fs ps f f1 f2,
+  lookup_decl e PSrc n = Some (DStruct fs) -> parse_fields e fuel PSrc n true = Some ps ->
+  In f fs -> sf_emb f = false -> sf_tag f <> "" -> sf_tag f <> "-" ->
+  to_pascal_case (sf_name f) = sf_name f ->
+  (forall g, In g fs -> sf_emb g = false -> sf_tag g <> "" -> sf_tag g <> "-" ->
+             to_pascal_case (sf_name g) = sf_name f -> sf_tag g = sf_tag f) ->
+  f_name f1 = sf_name f -> f_isget f1 = false -> f_isset f1 = false -> f_backing f1 = "" -> f_backing f2 = "" ->
+  to_pascal_case (sf_tag f) = f_name f2 ->
+  can_name_match f1 f2 (p_tags ps) false = true.
+Proof.
+  intros e fuel n fs ps f f1 f2 L P I Em T1 T2 Pn U N1 G S0 B1 B2 E.
+  eapply can_name_match_tag; eauto. rewrite N1. eapply parsed_tag; eauto.
+Qed.
+Print Assumptions C05_tagged_field_matches.
 
 (* ---- non-vacuity: ex1 (Proofs/MapperExamples.v) has embedded pointer structs to
    depth 2, a map:"Str" tag, a map:"-" field, conversions, a string<->int8 pair
